@@ -43,14 +43,26 @@ def text_pieces(t, ex=None, p=None):
             n_ += 1
         if x[0] == "app" and re.search(r"ops::Add<.*>>::add$", str(x[1])) and len(x[2]) == 2:
             return walk(x[2][0], depth + 1) and walk(x[2][1], depth + 1)
+        if x[0] == "app" and re.search(r"<impl \[.*\]>::(concat|join)(::<.*>)?$|slice::Concat<.*>>::concat$", str(x[1])) and x[2]:
+            # [a, "/", b, ..].concat()
+            if re.search(r"join", str(x[1])) and (len(x[2]) < 2 or S.fstr(x[2][1]).strip('&*') != '""'):
+                return False
+            arr = x[2][0]
+            n2 = 0
+            while arr[0] in ("ref", "deref") and n2 < 6:
+                arr = (ex.deref_val(p, arr) if ex is not None else (arr[3] if len(arr) > 3 else arr)) if arr[0] == "ref" else arr[1]
+                n2 += 1
+            if arr[0] not in ("array", "vec"):
+                return False
+            return all(walk(a_, depth + 1) for a_ in arr[1])
         if x[0] == "const" and isinstance(x[1], str) and x[1].startswith('"'):
             lits.append(x[1].strip('"'))
             return True
-        if x[0] == "app":
+        if x[0] == "app" and re.search(r"fmt::|format", str(x[1])):
             return False
         vals.append(x)
         return True
-    if t is not None and walk(t) and (lits or vals) and any(x_[0] == "app" and re.search(r"ops::Add<.*>>::add$", str(x_[1])) for x_ in S.subterms(t)):
+    if t is not None and walk(t) and (lits or vals) and any(x_[0] == "app" and re.search(r"ops::Add<.*>>::add$|::concat(::<.*>)?$|::join(::<.*>)?$", str(x_[1])) for x_ in S.subterms(t)):
         return "".join(lits), vals
     return None
 
@@ -245,7 +257,7 @@ def analyze(ctx, want):
                 seen.add("done")
                 ob("C18.d", "returns-ok-after-all-modes", variant_of(ex, p, r) == "Ok", "-> %s" % S.fstr(r)[:40], gd.loc())
             continue
-        fp = fmt_parts(argval(fc[0], path_idx), ex, p)
+        fp = text_pieces(argval(fc[0], path_idx), ex, p)
         ok = fp is not None and len(fp[1]) == 3
         if ok:
             a, b, c = [S.fstr(v) for v in fp[1]]
@@ -261,7 +273,8 @@ def analyze(ctx, want):
             rc = p.calls(r"dot::compiled_dfa_render::")
             ok = len(rc) == 1
             if ok:
-                item = re.search(r"(item@bb\d+)", S.fstr(fp[1][2])).group(1) if fp else "?"
+                mi_ = re.search(r"(item@bb\d+)", S.fstr(fp[1][2])) if fp and len(fp[1]) > 2 else None
+                item = mi_.group(1) if mi_ else "?"
                 ok = S.fstr(argval(rc[0], 0)).lstrip("&*") == item + ".dfa" and "self.character_classes" in S.fstr(argval(rc[0], 2)) and S.mentions(argval(rc[0], 3), lambda x: x == ("field", ("downcast", fc[0][4], "Ok"), "0")) or (len(rc) == 1 and S.fstr(argval(rc[0], 0)).lstrip("&*") == item + ".dfa" and "self.character_classes" in S.fstr(argval(rc[0], 2)))
             ob("C18.a", "each-mode-rendered-into-its-own-file", bool(ok), "compiled_dfa_render(%s, .., %s, ..)" % (S.fstr(argval(rc[0], 0))[:40] if rc else None, S.fstr(argval(rc[0], 2))[:40] if rc else None), gd.loc())
     ob("C18.d", "all-outcomes", {"io-err", "io-ok", "done"} <= seen, "outcomes %s" % sorted(seen), gd.loc())
